@@ -30,9 +30,37 @@ pub enum Case {
         cap: u8,
         singular: bool,
     },
-    NewtonPoly { complex_field: bool, rs: RootSet, target: usize, rho: f64, angle: f64, tol: f64 },
-    Muller { complex_field: bool, rs: RootSet, target: usize, offs: [(f64, f64); 3], vertical: bool, near: bool, tol: f64 },
-    Steff { func: u8, off: f64, tol: f64, cap: usize },
+    NewtonPoly {
+        complex_field: bool,
+        rs: RootSet,
+        target: usize,
+        rho: f64,
+        angle: f64,
+        tol: f64,
+        /// all coefficients are multiplied by 10^scale_exp (the roots do not move)
+        #[serde(default)]
+        scale_exp: f64,
+    },
+    Muller {
+        complex_field: bool,
+        rs: RootSet,
+        target: usize,
+        offs: [(f64, f64); 3],
+        vertical: bool,
+        near: bool,
+        tol: f64,
+        #[serde(default)]
+        scale_exp: f64,
+    },
+    /// g(x) = relax * x + (1 - relax) * r(x): same fixed point as the catalogue map r, slope relax + (1-relax) r'
+    Steff {
+        func: u8,
+        off: f64,
+        tol: f64,
+        cap: usize,
+        #[serde(default)]
+        relax: f64,
+    },
 }
 
 // --------------------------------------------------------------------------------------------
@@ -241,18 +269,28 @@ where
 // --------------------------------------------------------------------------------------------
 // polynomials
 
-fn poly_real(cf: &[C64]) -> Polynomial<f64> {
-    let desc: Vec<f64> = cf.iter().rev().map(|z| z.re).collect();
+fn poly_real(cf: &[C64], scale: f64) -> Polynomial<f64> {
+    let desc: Vec<f64> = cf.iter().rev().map(|z| z.re * scale).collect();
     let mut p = Polynomial::from_slice(&desc);
-    p.set_tolerance(1e-14).unwrap();
+    p.set_tolerance(1e-30).unwrap();
     p
 }
 
-fn poly_cplx(cf: &[C64]) -> Polynomial<C64> {
-    let desc: Vec<C64> = cf.iter().rev().copied().collect();
+fn poly_cplx(cf: &[C64], scale: f64) -> Polynomial<C64> {
+    let desc: Vec<C64> = cf.iter().rev().map(|z| z * scale).collect();
     let mut p = Polynomial::from_slice(&desc);
-    p.set_tolerance(1e-14).unwrap();
+    p.set_tolerance(1e-30).unwrap();
     p
+}
+
+fn scale_of(o: &mut Obs, scale_exp: f64) -> f64 {
+    if scale_exp != 0.0 {
+        o.label("poly-scaled");
+        if scale_exp <= -4.0 {
+            o.label("poly-scaled-small");
+        }
+    }
+    10f64.powf(scale_exp)
 }
 
 /// evaluation-noise floor of a root: 64 eps sum|c_k||z|^k / |p'(z)|
@@ -262,7 +300,8 @@ fn root_floor(cf: &[C64], rs: &RootSet, idx: usize) -> f64 {
 }
 
 fn run_newton_poly(case: &Case, mut o: Obs) -> Outcome {
-    let Case::NewtonPoly { complex_field, rs, target, rho, angle, tol } = case else { unreachable!() };
+    let Case::NewtonPoly { complex_field, rs, target, rho, angle, tol, scale_exp } = case else { unreachable!() };
+    let scale = scale_of(&mut o, *scale_exp);
     let roots = rs.all_roots();
     let n = roots.len();
     let idx = target % n;
@@ -277,11 +316,11 @@ fn run_newton_poly(case: &Case, mut o: Obs) -> Outcome {
     let off = c(angle.cos(), angle.sin()) * (rho * rad);
     let bound = 2.0 * tol + root_floor(&cf, rs, idx);
     let res: Result<Result<C64, String>, Caught> = if real_ok {
-        let p = poly_real(&cf);
+        let p = poly_real(&cf, scale);
         let x0 = z.re + off.re.signum() * rho * rad;
         guard(|| newton_polynomial(x0, &p, *tol, 100).map(|x| c(x, 0.0)))
     } else {
-        let p = poly_cplx(&cf);
+        let p = poly_cplx(&cf, scale);
         guard(|| newton_polynomial(z + off, &p, *tol, 100))
     };
     if *rho == 0.0 {
@@ -311,7 +350,8 @@ fn run_newton_poly(case: &Case, mut o: Obs) -> Outcome {
 }
 
 fn run_muller(case: &Case, mut o: Obs) -> Outcome {
-    let Case::Muller { complex_field, rs, target, offs, vertical, near, tol } = case else { unreachable!() };
+    let Case::Muller { complex_field, rs, target, offs, vertical, near, tol, scale_exp } = case else { unreachable!() };
+    let scale = scale_of(&mut o, *scale_exp);
     let roots = rs.all_roots();
     let n = roots.len();
     let idx = target % n;
@@ -349,10 +389,10 @@ fn run_muller(case: &Case, mut o: Obs) -> Outcome {
         o.label("muller-vertical");
     }
     let res: Result<Result<C64, String>, Caught> = if use_real {
-        let p = poly_real(&cf);
+        let p = poly_real(&cf, scale);
         guard(|| muller_polynomial((pts[0].re, pts[1].re, pts[2].re), &p, *tol, 100))
     } else {
-        let p = poly_cplx(&cf);
+        let p = poly_cplx(&cf, scale);
         guard(|| muller_polynomial((pts[0], pts[1], pts[2]), &p, *tol, 100))
     };
     o.label(if *near { "muller-near" } else { "muller-generic" });
@@ -384,7 +424,8 @@ fn run_muller(case: &Case, mut o: Obs) -> Outcome {
             }
             let bound = 2.0 * tol + root_floor(&cf, rs, bi);
             if best <= bound {
-                o.set("ratio_err", best / bound);
+                // only the judged (near) class contributes to the margin statistics
+                o.set(if *near { "ratio_err" } else { "wide_err_over_bound" }, best / bound);
                 o.pass()
             } else if !*near {
                 // Wide triples: the stopping rule (two consecutive iterates within tol) is a heuristic
@@ -406,6 +447,17 @@ fn run_muller(case: &Case, mut o: Obs) -> Outcome {
 thread_local! {
     static STEFF_CALLS: Cell<usize> = Cell::new(0);
     static STEFF_BUDGET: Cell<usize> = Cell::new(usize::MAX);
+    static STEFF_RELAX: Cell<f64> = Cell::new(0.0);
+}
+
+/// under-relaxation of a catalogue map: k x + (1 - k) r(x) (k = 0: the map itself, bit for bit)
+fn relaxed(x: f64, rx: f64) -> f64 {
+    let k = STEFF_RELAX.with(|r| r.get());
+    if k == 0.0 {
+        rx
+    } else {
+        k * x + (1.0 - k) * rx
+    }
 }
 
 fn tick() {
@@ -435,27 +487,27 @@ fn r5(x: f64) -> f64 {
 }
 fn g0(x: f64) -> f64 {
     tick();
-    r0(x)
+    relaxed(x, r0(x))
 }
 fn g1(x: f64) -> f64 {
     tick();
-    r1(x)
+    relaxed(x, r1(x))
 }
 fn g2(x: f64) -> f64 {
     tick();
-    r2(x)
+    relaxed(x, r2(x))
 }
 fn g3(x: f64) -> f64 {
     tick();
-    r3(x)
+    relaxed(x, r3(x))
 }
 fn g4(x: f64) -> f64 {
     tick();
-    r4(x)
+    relaxed(x, r4(x))
 }
 fn g5(x: f64) -> f64 {
     tick();
-    r5(x)
+    relaxed(x, r5(x))
 }
 
 /// (counted function, raw function, rough location of the fixed point, basin half-width, name)
@@ -478,14 +530,29 @@ fn fixed_point(raw: fn(f64) -> f64, near: f64) -> f64 {
 }
 
 fn run_steff(case: &Case, mut o: Obs) -> Outcome {
-    let Case::Steff { func, off, tol, cap } = case else { unreachable!() };
+    let Case::Steff { func, off, tol, cap, relax } = case else { unreachable!() };
     let (g, raw, near, basin, name) = STEFF[*func as usize % STEFF.len()];
     let fix = fixed_point(raw, near);
     o.label(format!("steffensen-{name}"));
+    // slope of the relaxed map at the fixed point (central difference of the catalogue map)
+    let slope = relax + (1.0 - relax) * (raw(fix + 1e-5) - raw(fix - 1e-5)) / 2e-5;
+    if *relax != 0.0 {
+        o.label("steffensen-relaxed");
+    }
+    if slope >= 0.75 {
+        o.label("steffensen-slow-contraction");
+    }
     let x0 = fix + off * basin;
+    // Aitken's formula divides by g(g(x)) - 2 g(x) + x ~ (1-k)^2 (x - x*): its rounding noise limits the
+    // attainable accuracy to ~ eps |x| / (1-k)^2, so slow contractions are asked for no more than 1e3 times that
+    // (the catalogue maps themselves, k <= 0.5, keep the full tolerance range)
+    let noise = EPS * fix.abs().max(1.0) / ((1.0 - slope) * (1.0 - slope)).max(1e-4);
+    let tol = &(if *relax != 0.0 { tol.max(1e3 * noise) } else { *tol });
     STEFF_CALLS.with(|c| c.set(0));
     STEFF_BUDGET.with(|b| b.set(2 * cap + 4));
+    STEFF_RELAX.with(|r| r.set(*relax));
     let res = guard(|| steffensen(x0, g, *tol, *cap));
+    STEFF_RELAX.with(|r| r.set(0.0));
     STEFF_BUDGET.with(|b| b.set(usize::MAX));
     o.set("calls", STEFF_CALLS.with(|c| c.get()));
     o.nontrivial = true;
@@ -507,13 +574,19 @@ fn run_steff(case: &Case, mut o: Obs) -> Outcome {
             if !x.is_finite() {
                 return o.fail("Ok result is not finite");
             }
-            let resid = (raw(x) - x).abs();
+            // residual of the map that was iterated: (1 - relax) (r(x) - x)
+            let resid = (1.0 - relax) * (raw(x) - x).abs();
             let bound = 10.0 * tol + 16.0 * EPS * x.abs().max(1.0);
+            // distance to the fixed point: the accepted iterate is the Aitken value of a point within tol of
+            // it, so its error is O(tol^2) plus the rounding noise of the formula, ~ eps |x| / (1 - slope)^2
+            let dist = (x - fix).abs();
+            let dbound = 3.0 * tol + 64.0 * noise;
             o.set("ratio_resid", resid / bound);
-            if resid <= bound && (x - fix).abs() <= bound * 4.0 {
+            o.set("ratio_dist", dist / dbound);
+            if resid <= bound && dist <= dbound {
                 o.pass()
             } else {
-                o.fail(format!("returned {x:e}: |g(x)-x| = {resid:e}, distance to the fixed point {:e} (allowed {bound:e})", (x - fix).abs()))
+                o.fail(format!("returned {x:e}: |g(x)-x| = {resid:e} (allowed {bound:e}), distance to the fixed point {dist:e} (allowed {dbound:e}; slope at the fixed point {slope:.3})"))
             }
         }
     }
@@ -532,6 +605,11 @@ pub fn run_case(case: &Case) -> Outcome {
         Case::Muller { .. } => run_muller(case, o),
         Case::Steff { .. } => run_steff(case, o),
     }
+}
+
+/// decimal exponent of a common factor on all coefficients: none, or 10^[-8, 4]
+fn scale_exp() -> BoxedStrategy<f64> {
+    prop_oneof![3 => Just(0.0), 2 => gen::fl(-8.0, 4.0)].boxed()
 }
 
 fn strategy(_t: Tier) -> BoxedStrategy<Case> {
@@ -560,13 +638,14 @@ fn strategy(_t: Tier) -> BoxedStrategy<Case> {
             }
             Case::Sys { dim, method, a, scale, r, delta, eta, start, tol, h, cap, singular }
         });
-    let npoly = (any::<bool>(), prop_oneof![real_roots_only(1, 8), real_rootset(1, 8), complex_rootset(1, 8)], 0usize..8, prop_oneof![1 => Just(0.0), 6 => gen::fl(0.0, 1.0)], gen::fl(0.0, 6.2831), gen::logu(-10.0, -3.0))
-        .prop_map(|(complex_field, rs, target, rho, angle, tol)| Case::NewtonPoly { complex_field, rs, target, rho, angle, tol });
+    let npoly = (any::<bool>(), prop_oneof![real_roots_only(1, 8), real_rootset(1, 8), complex_rootset(1, 8)], 0usize..8, prop_oneof![1 => Just(0.0), 6 => gen::fl(0.0, 1.0)], gen::fl(0.0, 6.2831), gen::logu(-10.0, -3.0), scale_exp())
+        .prop_map(|(complex_field, rs, target, rho, angle, tol, scale_exp)| Case::NewtonPoly { complex_field, rs, target, rho, angle, tol, scale_exp });
     let off = || (gen::fl(-1.0, 1.0), gen::fl(-1.0, 1.0));
-    let muller = (any::<bool>(), prop_oneof![real_roots_only(2, 8), real_rootset(2, 8), complex_rootset(2, 8)], 0usize..8, [off(), off(), off()], prop_oneof![3 => Just(false), 1 => Just(true)], prop_oneof![3 => Just(true), 1 => Just(false)], gen::logu(-10.0, -3.0))
-        .prop_map(|(complex_field, rs, target, offs, vertical, near, tol)| Case::Muller { complex_field, rs, target, offs, vertical, near, tol });
-    let steff = (0u8..6, gen::fl(-1.0, 1.0), gen::logu(-14.0, -3.0), prop_oneof![8 => Just(100usize), 1 => 0usize..3]).prop_map(|(func, off, tol, cap)| Case::Steff { func, off, tol, cap });
-    prop_oneof![4 => sys, 2 => npoly, 2 => muller, 1 => steff].boxed()
+    let muller = (any::<bool>(), prop_oneof![real_roots_only(2, 8), real_rootset(2, 8), complex_rootset(2, 8)], 0usize..8, [off(), off(), off()], prop_oneof![3 => Just(false), 1 => Just(true)], prop_oneof![3 => Just(true), 1 => Just(false)], gen::logu(-10.0, -3.0), scale_exp())
+        .prop_map(|(complex_field, rs, target, offs, vertical, near, tol, scale_exp)| Case::Muller { complex_field, rs, target, offs, vertical, near, tol, scale_exp });
+    let relax = prop_oneof![2 => Just(0.0), 1 => gen::fl(0.0, 0.9), 2 => gen::fl(0.7, 0.97)];
+    let steff = (0u8..6, gen::fl(-1.0, 1.0), gen::logu(-14.0, -3.0), prop_oneof![8 => Just(100usize), 1 => 0usize..3], relax).prop_map(|(func, off, tol, cap, relax)| Case::Steff { func, off, tol, cap, relax });
+    prop_oneof![8 => sys, 4 => npoly, 4 => muller, 3 => steff].boxed()
 }
 
 pub fn run(opts: &Opts) -> i32 {
@@ -585,7 +664,8 @@ pub fn run(opts: &Opts) -> i32 {
     }
     for func in 0..6u8 {
         for tol in [1e-4, 1e-13] {
-            spec.enumerated.push(Case::Steff { func, off: 0.5, tol, cap: 100 });
+            spec.enumerated.push(Case::Steff { func, off: 0.5, tol, cap: 100, relax: 0.0 });
+            spec.enumerated.push(Case::Steff { func, off: 0.25, tol, cap: 100, relax: 0.9 });
         }
     }
     spec.cases = opts.tier.pick(600_000, 20_000_000);
@@ -603,9 +683,11 @@ pub fn run(opts: &Opts) -> i32 {
         ("muller-vertical", 0.02),
         ("muller-near", 0.1),
         ("steffensen-tight-tol", 0.005),
+        ("steffensen-slow-contraction", 0.01),
+        ("poly-scaled-small", 0.02),
         ("dim4", 0.05),
     ];
-    spec.rule = "generated: (a) systems F(x)=A(x-r)+eta*N(x-r) of dimension 1-4, A strictly diagonally dominant (|diag| in [1,3], |offdiag| <= 0.25) times 10^[-1,1], N_i(d)=sin(d_{i+1})d_i+d_{i+2}^2, eta capped so that beta*gamma*|delta|<=0.1, roots in [-3,3]^S, at the origin, or far (|r_i|<=100), starts r+delta (|delta_i|<=0.3), exactly r, or the origin (affine), tol 10^[-10,-3], FD width 10^[-4,-1], n_max=100 or exhaustion caps 0..2, singular class with duplicate integer rows; Newton and secant. (b) polynomials of degree 1-8 expanded from separated roots (grid construction, separation >= 0.3, |z|<=3), Newton starts within 0.8 d/(2n-1) of a chosen root in real and complex arithmetic, Muller triples within 0.1 d (must converge) or 1.5 (may fail), incl. vertical triples. (c) Steffensen on six contractions with tolerances 10^[-14,-3]. Oracle: Ok within 2 tol + rounding floor of the root (nearest root for Muller; |g(x)-x| <= 10 tol for Steffensen), Err on singular/exhausted input (or an Ok that meets the accuracy bound), never a panic/NaN, call counts bounded by the iteration cap. Non-trivial = non-affine system of dimension >= 2, special start, far root, tol <= 1e-8, polynomial degree >= 2, every Steffensen case. Distinct = distinct case JSON.".into();
+    spec.rule = "generated: (a) systems F(x)=A(x-r)+eta*N(x-r) of dimension 1-4, A strictly diagonally dominant (|diag| in [1,3], |offdiag| <= 0.25) times 10^[-1,1], N_i(d)=sin(d_{i+1})d_i+d_{i+2}^2, eta capped so that beta*gamma*|delta|<=0.1, roots in [-3,3]^S, at the origin, or far (|r_i|<=100), starts r+delta (|delta_i|<=0.3), exactly r, or the origin (affine), tol 10^[-10,-3], FD width 10^[-4,-1], n_max=100 or exhaustion caps 0..2, singular class with duplicate integer rows; Newton and secant. (b) polynomials of degree 1-8 expanded from separated roots (grid construction, separation >= 0.3, |z|<=3), Newton starts within 0.8 d/(2n-1) of a chosen root in real and complex arithmetic, Muller triples within 0.1 d (must converge) or 1.5 (may fail), incl. vertical triples. all coefficients optionally multiplied by 10^[-8,4] (roots unchanged). (c) Steffensen on six contractions r and their under-relaxations k x+(1-k) r(x), k in [0,0.97] (same fixed point, slope up to ~0.98), with tolerances 10^[-14,-3]. Oracle: Ok within 2 tol + rounding floor of the root (nearest root for Muller; |g(x)-x| <= 10 tol and distance to the fixed point <= 3 tol + 64 eps|x|/(1-slope)^2 for Steffensen; relaxed maps get tol >= 1e3 eps|x|/(1-slope)^2), Err on singular/exhausted input (or an Ok that meets the accuracy bound), never a panic/NaN, call counts bounded by the iteration cap. Non-trivial = non-affine system of dimension >= 2, special start, far root, tol <= 1e-8, polynomial degree >= 2, every Steffensen case. Distinct = distinct case JSON.".into();
     spec.max_shrink_iters = 3000;
     run_spec(spec, opts)
 }
